@@ -316,7 +316,7 @@ VISIT = {"expr", "stmt"}
 
 
 def rule_f3(F):
-    r = RuleResult("C03.F3", "code emitted into a conditionally or repeatedly executed block visits sub-expressions only inside a frame of its own", floor=4)
+    r = RuleResult("C03.F3", "code emitted into a conditionally or repeatedly executed block visits sub-expressions only inside a frame of its own", floor=2)
     regions = 0
     for b in lowerer_bodies(F):
         nbs = [bi for bi, t in mir.calls(b) if hir.last(mir.callee(t)) == "new_block"]
